@@ -248,6 +248,9 @@ func (s *Scanner) Next() (lexeme.LexEvent, bool) {
 		case lexeme.InlineAnnotationTextBegin:
 			return s.processingFoundLexeme(lexeme.InlineAnnotationTextEnd), true
 		case lexeme.TypesShortcutBegin:
+			if s.unfinishedLiteral {
+				break // "@" or "@a |": a type name is still expected
+			}
 			s.found(lexeme.MixedValueEnd)
 			return s.processingFoundLexeme(lexeme.TypesShortcutEnd), true
 		}
@@ -1164,6 +1167,7 @@ func stateNul(s *Scanner, c byte) state {
 
 func stateTypesShortcutBeginOfSchemaName(s *Scanner, c byte) state {
 	if bytes.IsValidUserTypeNameByte(c) {
+		s.unfinishedLiteral = false
 		s.step = stateTypesShortcutSchemaName
 		return scanContinue
 	}
@@ -1191,6 +1195,7 @@ func stateTypesShortcutSchemaName(s *Scanner, c byte) state {
 		s.step = stateTypesShortcutBeforePipe
 
 	case c == '|':
+		s.unfinishedLiteral = true // a type name has to follow
 		s.step = stateTypesShortcutAfterPipe
 
 	default:
@@ -1217,6 +1222,7 @@ func stateTypesShortcutBeforePipe(s *Scanner, c byte) state {
 		s.step = stateTypesShortcutBeforePipe
 
 	case c == '|':
+		s.unfinishedLiteral = true // a type name has to follow
 		s.step = stateTypesShortcutAfterPipe
 
 	default:
